@@ -22,6 +22,7 @@
 #include <fcppt/strong_typedef.hpp>
 #include <fcppt/cast/enum_to_underlying.hpp>
 #include <fcppt/optional/object.hpp>
+#include <fcppt/random/make_variate.hpp>
 #include <fcppt/random/variate.hpp>
 #include <fcppt/random/distribution/basic.hpp>
 #include <fcppt/random/distribution/make_basic.hpp>
@@ -43,6 +44,7 @@
 #include <deque>
 #include <functional>
 #include <limits>
+#include <optional>
 #include <random>
 #include <sstream>
 #include <string>
@@ -774,9 +776,17 @@ enum op_code
   op_minmax,
   op_eq,
   op_out,
+  op_draw_other, // draw directly from the distribution object with a second engine
+  op_wrap_ctor,  // hand the distribution object (with whatever hidden state it has) to variate(generator, distribution)
+  op_wrap_make,  // ... to make_variate
+  op_vdraw,      // draw through that variate
+  op_vcopy,      // continue with a copy of the variate
+  op_vmove,      // continue with a moved variate
+  op_copy,       // copy-construct the distribution, copy-assign it over another one and back
   op_count
 };
-char const *const op_names[] = {"draw", "reset", "param_get", "param_set", "draw_param", "minmax", "eq", "out"};
+char const *const op_names[] = {"draw",       "reset",     "param_get", "param_set", "draw_param", "minmax", "eq",   "out",
+                                "draw_other", "wrap_ctor", "wrap_make", "vdraw",     "vcopy",      "vmove",  "copy"};
 
 constexpr int fresh_draws = 4;
 
@@ -789,6 +799,8 @@ void drive_session(
     std::string const &engine_json,
     FArg const &farg,
     SArg const &sarg,
+    FArg const &farg2,
+    SArg const &sarg2,
     typename Fam::B const p1,
     typename Fam::B const p2,
     typename Fam::B const q1,
@@ -810,6 +822,13 @@ void drive_session(
     SE se(sarg);
     counting<FE> cf(fe);
     counting<SE> cs(se);
+    FE fe2{farg2};
+    SE se2(sarg2);
+    counting<FE> cf2(fe2);
+    counting<SE> cs2(se2);
+    using var_type = fcppt::random::variate<counting<FE>, dist>;
+    std::optional<var_type> wrapped;  // variate made from the distribution OBJECT d
+    std::optional<sdist> swrapped;    // its reference: a copy of the std distribution object
     dist d{Fam::make(p1, p2)};
     sdist sd(Fam::smake(p1, p2));
     dist const d0{Fam::make(p1, p2)};
@@ -852,6 +871,94 @@ void drive_session(
           stop = true;
         }
         if constexpr (Fam::bounded) extra = ",\"lo\":" + Fam::val(l1) + ",\"hi\":" + Fam::val(l2);
+        break;
+      }
+      case op_draw_other:
+      {
+        try
+        {
+          R const x = d(cf2);
+          w = "[[" + Fam::val(base(x)) + "," + std::to_string(cf2.count()) + "]]";
+        }
+        catch (script_exhausted const &)
+        {
+          stop = true;
+        }
+        try
+        {
+          B const y = sd(cs2);
+          s = "[[" + Fam::val(y) + "," + std::to_string(cs2.count()) + "]]";
+        }
+        catch (script_exhausted const &)
+        {
+          stop = true;
+        }
+        break;
+      }
+      case op_wrap_ctor:
+        wrapped.emplace(fcppt::make_ref(cf), d);
+        swrapped.emplace(sd);
+        break;
+      case op_wrap_make:
+        wrapped.emplace(fcppt::random::make_variate(fcppt::make_ref(cf), d));
+        swrapped.emplace(sd);
+        break;
+      case op_vdraw:
+      {
+        if (!wrapped.has_value())
+        {
+          wrapped.emplace(fcppt::make_ref(cf), d);
+          swrapped.emplace(sd);
+        }
+        try
+        {
+          R const x = (*wrapped)();
+          w = "[" + Fam::val(base(x)) + "]";
+        }
+        catch (script_exhausted const &)
+        {
+          stop = true;
+        }
+        try
+        {
+          B const y = (*swrapped)(cs);
+          s = "[" + Fam::val(y) + "]";
+        }
+        catch (script_exhausted const &)
+        {
+          stop = true;
+        }
+        if constexpr (Fam::bounded) extra = ",\"lo\":" + Fam::val(c1) + ",\"hi\":" + Fam::val(c2);
+        break;
+      }
+      case op_vcopy:
+        if (wrapped.has_value())
+        {
+          var_type const c(*wrapped);
+          wrapped.emplace(c);
+          sdist const sc(*swrapped);
+          swrapped.emplace(sc);
+        }
+        break;
+      case op_vmove:
+        if (wrapped.has_value())
+        {
+          var_type c(std::move(*wrapped));
+          wrapped.emplace(std::move(c));
+          sdist sc(std::move(*swrapped));
+          swrapped.emplace(std::move(sc));
+        }
+        break;
+      case op_copy:
+      {
+        dist const c(d);
+        dist a{Fam::make(q1, q2)};
+        a = c;
+        d = a;
+        sdist const sc(sd);
+        sdist sa(Fam::smake(q1, q2));
+        sa = sc;
+        sd = sa;
         break;
       }
       case op_reset:
@@ -946,15 +1053,17 @@ void session_engines(
     bool const vp)
 {
   if (eng == "script")
-    drive_session<Fam, R, scripted, scripted>(rname, eng, "\"script\":" + vj::arr(script), script, script, p1, p2, q1, q2, ops, vp);
+    drive_session<Fam, R, scripted, scripted>(rname, eng, "\"script\":" + vj::arr(script), script, script, script, script, p1, p2, q1, q2, ops, vp);
   else if (eng == "minstd_rand")
     drive_session<Fam, R, f_minstd, std::minstd_rand>(
         rname, eng, "\"seed\":" + num_json(Num{false, seed}), f_minstd::seed(static_cast<f_minstd::result_type>(seed)),
-        static_cast<std::minstd_rand::result_type>(seed), p1, p2, q1, q2, ops, vp);
+        static_cast<std::minstd_rand::result_type>(seed), f_minstd::seed(static_cast<f_minstd::result_type>(seed + 12345ULL)),
+        static_cast<std::minstd_rand::result_type>(seed + 12345ULL), p1, p2, q1, q2, ops, vp);
   else
     drive_session<Fam, R, f_mt, std::mt19937>(
         rname, eng, "\"seed\":" + num_json(Num{false, seed}), f_mt::seed(static_cast<f_mt::result_type>(seed)),
-        static_cast<std::mt19937::result_type>(seed), p1, p2, q1, q2, ops, vp);
+        static_cast<std::mt19937::result_type>(seed), f_mt::seed(static_cast<f_mt::result_type>(seed + 12345ULL)),
+        static_cast<std::mt19937::result_type>(seed + 12345ULL), p1, p2, q1, q2, ops, vp);
 }
 
 // parameters are passed as doubles (all driven values are exactly representable in every base type)
@@ -1016,6 +1125,38 @@ std::vector<std::vector<int>> session_patterns(vj::Rng &r, int const nrandom)
     dd.push_back(op_draw);
     ps.push_back(dd);
   }
+  // a distribution object that has been drawn from k times (same engine / another engine / both)
+  // is handed to a variate, or copied; the variate is copied and moved
+  for (int k = 0; k <= 3; ++k)
+    for (int how = 0; how < 3; ++how)
+    {
+      std::vector<int> pre;
+      for (int i = 0; i < k; ++i) pre.push_back(how == 0 ? op_draw : how == 1 ? op_draw_other : (i % 2 == 0 ? op_draw_other : op_draw));
+      std::vector<int> a = pre;
+      a.push_back((k + how) % 2 == 0 ? op_wrap_ctor : op_wrap_make);
+      for (int i = 0; i < 5; ++i) a.push_back(op_vdraw);
+      ps.push_back(a);
+      if (how == 0)
+      {
+        std::vector<int> b = pre;
+        b.push_back(op_copy);
+        for (int i = 0; i < 4; ++i) b.push_back(op_draw);
+        ps.push_back(b);
+        std::vector<int> c = pre;
+        c.push_back(op_wrap_make);
+        c.push_back(op_vdraw);
+        c.push_back(op_vcopy);
+        c.push_back(op_vdraw);
+        c.push_back(op_vdraw);
+        c.push_back(op_vmove);
+        c.push_back(op_vdraw);
+        c.push_back(op_vdraw);
+        // the distribution object itself was not touched by the variate
+        c.push_back(op_draw);
+        c.push_back(op_out);
+        ps.push_back(c);
+      }
+    }
   ps.push_back({op_minmax, op_param_get, op_eq, op_out, op_draw, op_eq, op_out, op_draw_param, op_draw, op_eq, op_out, op_param_set, op_param_get,
                 op_minmax, op_draw, op_out, op_reset, op_eq, op_out, op_draw, op_draw, op_eq, op_out, op_draw});
   ps.push_back({op_reset, op_reset, op_draw, op_reset, op_draw, op_draw, op_draw, op_reset, op_draw, op_draw});
@@ -1026,7 +1167,8 @@ std::vector<std::vector<int>> session_patterns(vj::Rng &r, int const nrandom)
     for (int i = 0; i < len; ++i)
     {
       std::uint64_t const x = r.below(16);
-      a.push_back(x < 8 ? op_draw : x < 11 ? op_reset : static_cast<int>(x - 11 + op_param_get));
+      std::uint64_t const y = r.below(12);
+      a.push_back(x < 6 ? op_draw : x < 9 ? op_reset : x < 11 ? static_cast<int>(op_draw_other + y % 7) : static_cast<int>(op_param_get + y % 6));
     }
     ps.push_back(a);
   }
